@@ -185,6 +185,11 @@ def gen_reuse(rng, tier):
     second = rng.choice(["export", "tigerxml", "discobrackets", "terminals", "extract",
                          "gapdegree", "trans+export", "trans+export", "trans+export",
                          "disco_order", "trans+extract", "trans+gapdegree", "trans+brackets"])
+    if w1 in ("extract", "gapdegree") and rng.random() < 0.5:
+        # what the first consumer may have left on the nodes concerns yields and fan-outs:
+        # change them in place and let a yield-dependent consumer look again
+        second = rng.choice(["trans+extract", "trans+extract", "trans+gapdegree",
+                             "trans+brackets"])
     trans2 = rng.choice([["root_attach"], ["negra_mark_heads", "binarize"],
                          ["root_attach", "negra_mark_heads", "boyd_split", "raising"],
                          ["punctuation_delete"], ["add_topnode"], ["punctuation_root"],
